@@ -60,6 +60,10 @@ func (x *Exec) goCall(s *State, in *ssa.Go) {
 
 // atCallAssertions checks the caller's `at-call` clauses matching this callee.
 func (x *Exec) atCallAssertions(s *State, site ssa.Instruction, calleeName string) {
+	x.atCallAssertionsArgs(s, site, calleeName, nil)
+}
+
+func (x *Exec) atCallAssertionsArgs(s *State, site ssa.Instruction, calleeName string, args []Val) {
 	if len(s.frames) == 0 {
 		return
 	}
@@ -72,6 +76,9 @@ func (x *Exec) atCallAssertions(s *State, site ssa.Instruction, calleeName strin
 			continue
 		}
 		env := x.specEnvFrame(s)
+		for i, a := range args {
+			env.lets[fmt.Sprintf("arg%d", i)] = a
+		}
 		t := env.evalBool(ac.Pred.Expr)
 		x.oblige(s, "assert", fmt.Sprintf("%s@%s", ac.Pred.Label, x.label(s, site)), t, site, ac.Pred.Src)
 		s.assume(t)
@@ -80,10 +87,10 @@ func (x *Exec) atCallAssertions(s *State, site ssa.Instruction, calleeName strin
 
 func (x *Exec) callValue(s *State, site ssa.Instruction, cc *ssa.CallCommon, fv Val, args []Val, k func(*State, Val)) {
 	if cc.IsInvoke() {
-		x.atCallAssertions(s, site, typeName(cc.Value.Type())+"."+cc.Method.Name())
+		x.atCallAssertionsArgs(s, site, typeName(cc.Value.Type())+"."+cc.Method.Name(), args)
 	} else if f, ok := fv.(*FuncV); ok {
 		if fn, ok := f.Fn.(*ssa.Function); ok {
-			x.atCallAssertions(s, site, fn.String())
+			x.atCallAssertionsArgs(s, site, fn.String(), args)
 		}
 	}
 	if cc.IsInvoke() {
@@ -302,7 +309,15 @@ func (x *Exec) applyContract(s *State, site ssa.Instruction, fn *ssa.Function, c
 	old := s.clone()
 	if c.HasAssigns {
 		env.old = old
-		recs := x.assignRecs(s, c.Assigns, env)
+		var plain []string
+		for _, a := range c.Assigns {
+			if strings.TrimSpace(a) == "fs" {
+				x.fsHavoc(s, tag)
+				continue
+			}
+			plain = append(plain, a)
+		}
+		recs := x.assignRecs(s, plain, env)
 		for _, key := range sortedWriteKeys(recs) {
 			x.havoc(s, recs[key], tag)
 		}
